@@ -180,7 +180,7 @@ impl MT204 {
         // Use a small epsilon for floating-point comparison (0.01 = 1 cent)
         let difference = (field_19_amount - sum_of_transactions).abs();
 
-        if difference > 0.01 {
+        if !crate::fields::swift_utils::amounts_equal(field_19_amount, sum_of_transactions) {
             return Some(SwiftValidationError::content_error(
                 "C01",
                 "19",
